@@ -28,7 +28,7 @@ Proof.
     by (intros f Hf; rewrite upd_st, P; apply Hf).
   destruct skip; [inversion H; subst; exact F0|].
   destruct (st_ctx (wst w)); [inversion H; subst; apply FU; intros [ ]; split; reflexivity|].
-  destruct (wait (st_frames (wst w)) evs) as [rr|e lost];
+  destruct (wait (st_frames (wst w)) wait_quarters evs) as [rr|e lost];
     [|inversion H; subst; apply FU; intros [ ]; split; reflexivity].
   destruct (rsess rr); try (inversion H; subst; exact F0);
     (destruct (rstatus rr =? csm_status_unauthorized); [|inversion H; subst; exact F0];
@@ -394,12 +394,13 @@ Qed.
 
 (* ---------- 8. a call that ends the run loop has returned an error (reset() forgets the old failure) ---------- *)
 
-Lemma wait_err_nonzero frames : forall evs e lost, wait frames evs = WErr e lost -> e <> 0.
+Lemma wait_err_nonzero frames : forall evs b e lost, wait frames b evs = WErr e lost -> e <> 0.
 Proof.
-  induction evs as [|ev t IH]; intros e lost H; cbn in H.
+  induction evs as [|ev t IH]; intros b e lost H; cbn [wait] in H.
   - inversion H; subst. discriminate.
   - destruct ev; try (eapply IH; eauto; fail); try (inversion H; subst; discriminate).
-    destruct frames; [eapply IH; eauto|inversion H; subst; discriminate].
+    + destruct frames; [eapply IH; eauto|inversion H; subst; discriminate].
+    + destruct (b <=? q); [inversion H; subst; discriminate|eapply IH; eauto].
 Qed.
 
 Definition mc_post {A} (s s' : cst) (r : R A) : Prop :=
@@ -422,7 +423,7 @@ Proof.
   specialize (P _ _ eq_refl).
   destruct skip; [inversion H; subst; congruence|].
   destruct (st_ctx (wst w)); [inversion H; subst; eexists; split; [reflexivity|discriminate]|].
-  destruct (wait (st_frames (wst w)) evs) as [rr|e lost] eqn:Ew;
+  destruct (wait (st_frames (wst w)) wait_quarters evs) as [rr|e lost] eqn:Ew;
     [|inversion H; subst; eexists; split; [reflexivity|eapply wait_err_nonzero; eauto]].
   assert (S1 : forall f, (forall s, st_mustclose (f s) = st_mustclose s) -> st_mustclose (wst (upd f w1)) = false)
     by (intros f Hf; rewrite upd_st, Hf, P; exact F).
@@ -889,4 +890,31 @@ Proof.
   - exists c, []. auto.
   - destruct (call_keeps_ok2 cfg nm rev a c R Hc) as (c1 & k & E1 & O1). rewrite E1.
     destruct (IH c1 O1) as (c2 & ks & E2 & O2). rewrite E2. exists c2, (k :: ks). auto.
+Qed.
+
+(* ---------- 9. the response deadline is relative to the start of the wait ---------- *)
+
+(* whatever arrives, a wait lasts at most what is left of ReadTimeout *)
+Lemma wait_deadline frames : forall evs b, wait_time frames b evs <= b.
+Proof.
+  induction evs as [|ev t IH]; intro b; cbn [wait_time]; [lia|].
+  destruct ev; try lia; try apply IH.
+  - destruct frames; [apply IH|lia].
+  - destruct (b <=? q) eqn:E; [lia|]. specialize (IH (b - q)). lia.
+Qed.
+
+(* messages that are not the awaited response never turn a timeout into anything else: a server that keeps
+   talking (stale responses, OPTIONS requests, and frames while they are allowed) without ever answering gets
+   "request timed out", after exactly the time that was left *)
+Definition chatter (frames : bool) (ev : event) : Prop :=
+  match ev with EvGap _ | EvStale | EvOptReq => True | EvFrame => frames = true | _ => False end.
+
+Lemma chatter_times_out frames : forall evs b,
+  Forall (chatter frames) evs -> wait frames b evs = WErr eTimeout false /\ wait_time frames b evs = b.
+Proof.
+  induction evs as [|ev t IH]; intros b F; cbn [wait wait_time]; [auto|].
+  inversion F as [|? ? Hc Ht]; subst.
+  destruct ev; cbn in Hc; try contradiction; try (apply IH; exact Ht).
+  - subst frames. apply IH. exact Ht.
+  - destruct (b <=? q) eqn:E; [auto|]. destruct (IH (b - q) Ht) as (A & B). split; [exact A|]. rewrite B. lia.
 Qed.
